@@ -24,7 +24,9 @@ EXPLANATION = (
     "MutableFileNode is constructed only by the listed factory functions and cap->node creation is reachable only "
     "through create_from_cap; (5) every DirectoryNode mutator that touches the grid does so through "
     "self._node.modify(<modifier built on this dirnode>.modify) and returns that Deferred; no DirectoryNode code calls "
-    "a writing or private method of the file node. "
+    "a writing or private method of the file node; (6) every function that runs inside the serialised region "
+    "(the _impls, the MutableFileVersion operations they delegate to, and their callbacks) returns on every path the "
+    "Deferred of each piece of grid work it starts, so the serialiser really waits for the whole operation. "
     "Undecided: fairness and ordering inside Twisted, nodes created by create_mutable_file (not memoised: outside "
     "'obtained through the same capability string'), callers that take a MutableFileVersion and write through it.")
 TECHNIQUE = "static analysis: return-shape and who-may-call sweeps, Deferred registration model, CFG path rules, reaching definitions"
@@ -65,6 +67,23 @@ MFN_FACTORIES = {NM + "._create_mutable": "cap -> node, reached only through the
                  MFN + ".get_readonly": "read-only twin of a node (different cap, cannot write)"}
 
 
+# functions that run inside the serialised region: their Deferred must cover all the work they start
+AWAITED_IN = {
+    MFN: ("_download_best_version", "_overwrite", "_upload", "_modify", "_get_servermap", "_update_servermap"),
+    MFV: ("_overwrite", "_modify", "_modify_and_retry", "_modify_once", "_upload", "_read", "_update",
+          "_do_modify_update", "_do_update_update", "_build_uploadable_and_finish", "_try_to_download_data",
+          "_update_servermap", "overwrite", "modify", "read", "update", "download_to_data"),
+}
+# calls that start grid work and return its Deferred
+WORK_TAILS = {"publish", "update", "download", "_upload", "_modify_once", "_modify_and_retry", "_modify", "_overwrite",
+              "_update", "modify", "overwrite", "read", "download_to_data", "_update_servermap", "_try_to_download_data",
+              "_read", "get_best_mutable_version", "get_best_readable_version", "get_mutable_version",
+              "get_readable_version", "_get_version_from_servermap", "_get_servermap", "_do_modify_update",
+              "_do_update_update", "_do_serialized", "maybeDeferred", "gatherResults"}
+AMBIGUOUS_TAILS = {"read", "update", "download", "modify", "overwrite"}
+WORK_RECEIVERS = {"self", "mfv", "version", "p", "r", "u"}
+
+
 # ------------------------------------------------------------------ helpers
 def _class_funcs(ci):
     out, stack = [], list(ci.methods.values())
@@ -79,20 +98,61 @@ def _in_class(fn, ci):
     return fn.cls is not None and ci in fn.cls.mro()
 
 
+def _sweep(idx, name):
+    """Every call ``X.name(..)`` and every other load of an attribute ``X.name`` in the package, *including
+    lambda bodies* (the engine's call-graph sweeps do not enter lambdas): (fn, node, receiver expr, 'call'|'ref')."""
+    cache = idx.__dict__.setdefault("_lambda_sweep_cache", {})
+    out = []
+    for fn in idx.funcs.values():
+        if name not in fn.module.source:
+            continue
+        ent = cache.get(fn.qual)
+        if ent is None:
+            nodes = [n for n in func_own_nodes(fn, into_lambda=True) if isinstance(n, (ast.Call, ast.Attribute))]
+            callfuncs = {id(n.func) for n in nodes if isinstance(n, ast.Call)}
+            ent = cache[fn.qual] = (nodes, callfuncs)
+        nodes, callfuncs = ent
+        for n in nodes:
+            if isinstance(n, ast.Call):
+                if isinstance(n.func, ast.Attribute) and n.func.attr == name:
+                    out.append((fn, n, n.func.value, "call"))
+            elif n.attr == name and isinstance(n.ctx, ast.Load) and id(n) not in callfuncs:
+                out.append((fn, n, n.value, "ref"))
+    return out
+
+
+def _name_uses(idx, name):
+    """Calls ``name(..)`` (the Call node) and other loads of the plain name (the Name node), lambdas included."""
+    out = []
+    for fn in idx.funcs.values():
+        if name not in fn.module.source:
+            continue
+        nodes = list(func_own_nodes(fn, into_lambda=True))
+        callee = {id(n.func) for n in nodes if isinstance(n, ast.Call)}
+        for n in nodes:
+            if isinstance(n, ast.Call) and isinstance(n.func, ast.Name) and n.func.id == name:
+                out.append((fn, n))
+            elif isinstance(n, ast.Name) and n.id == name and isinstance(n.ctx, ast.Load) and id(n) not in callee:
+                out.append((fn, n))
+    return out
+
+
+def _is_type_test_arg(fn, name_node):
+    """The class name is only used inside isinstance()/issubclass()."""
+    for c in func_own_nodes(fn, into_lambda=True):
+        if isinstance(c, ast.Call) and isinstance(c.func, ast.Name) and c.func.id in ("isinstance", "issubclass"):
+            if any(x is name_node for a in c.args for x in ast.walk(a)):
+                return True
+    return False
+
+
 def _method_uses(idx, cg, tail, owner, foreign_prefix="allmydata"):
     """Calls and bare attribute references ``X.tail`` that can denote `owner`'s method: receiver ``self``
-    inside the owner class, or any non-self receiver anywhere in the package."""
-    cand = []
-    for cs in cg.calls_named(tail):
-        if isinstance(cs.call.func, ast.Attribute):
-            cand.append((cs.fn, cs.call, cs.call.func.value, "call"))
-    for (fn, nd) in cg.refs_named(tail):
-        if isinstance(nd, ast.Attribute):
-            cand.append((fn, nd, nd.value, "ref"))
+    inside the owner class (or a subclass), or any non-self receiver inside `foreign_prefix`."""
     out = []
-    for (fn, node, recv, kind) in cand:
+    for (fn, node, recv, kind) in _sweep(idx, tail):
         if isinstance(recv, ast.Name) and recv.id == "self":
-            if _in_class(fn, owner):
+            if fn.cls is not None and owner in fn.cls.mro():
                 out.append((fn, node, kind))
         elif fn.module.name.startswith(foreign_prefix):
             out.append((fn, node, kind))
@@ -284,8 +344,111 @@ def run(ctx: Context):
                   "file-node method", expected=10) as r:
         _dirnode_rule(r, idx)
 
+    # -- 6. the serialised region covers all the work ---------------------------------
+    with ctx.rule("C13.6", "R2/E7", "functions running inside the serialised region return (on every path) the Deferred of "
+                  "every piece of grid work they start, directly or through their callbacks", expected=20) as r:
+        _awaited_rule(r, idx)
+
 
 # --------------------------------------------------------------- rule bodies
+def _awaited_rule(r, idx):
+    for q, names in AWAITED_IN.items():
+        ci = idx.cls(q)
+        for nm in names:
+            top = idx.func(q + "." + nm)
+            r.site(top, None, "awaited")
+            bodies = [top]
+            stack = [top]
+            while stack:
+                g = stack.pop()
+                for k, v in g.nested.items():
+                    if not k.startswith("<lambda"):
+                        bodies.append(v)
+                        stack.append(v)
+            for g in bodies:
+                _awaited_body(r, idx, top, g)
+
+
+def _awaited_body(r, idx, top, g):
+    cfg = g.cfg()
+    rets = cfg.find(is_return)
+    returned_names = set()
+    for n in rets:
+        if n.ast.value is not None:
+            returned_names |= {x.id for x in ast.walk(n.ast.value) if isinstance(x, ast.Name)}
+    work = []
+
+    def is_work(c):
+        if not (isinstance(c, ast.Call) and isinstance(c.func, ast.Attribute) and call_tail(c) in WORK_TAILS):
+            return False
+        if call_tail(c) in AMBIGUOUS_TAILS:
+            # file-like .read()/dict .update() are not grid work: only on the objects that carry the operation
+            recv = c.func.value
+            return isinstance(recv, ast.Name) and recv.id in WORK_RECEIVERS
+        return True
+
+    def scan(body_root, in_lambda):
+        for x in own_nodes(body_root):
+            if isinstance(x, ast.Lambda) and x is not body_root:
+                # a lambda's value is its body: work started there must be (in) the body expression's value
+                for c in own_nodes(x.body):
+                    if is_work(c):
+                        if not _in_value_position(x.body, c):
+                            r.violation(g, g.loc(c), "%s: a callback starts %s but does not return its Deferred; the "
+                                        "serialised operation would be reported finished while that work is still running" % (
+                                            short(top), call_name(c) or call_tail(c)))
+            elif is_work(x):
+                work.append(x)
+    for st in g.body:
+        if isinstance(st, (ast.FunctionDef, ast.AsyncFunctionDef, ast.ClassDef)):
+            continue          # nested defs are bodies of their own
+        scan(st, False)
+    if not work and g is not top:
+        return
+    for c in work:
+        ok = False
+        for n in rets:
+            if n.ast.value is not None and _in_value_position(n.ast.value, c):
+                ok = True
+        if not ok:
+            # d = <work>; ...; return d   (possibly through d.addCallback chains)
+            for st in func_own_nodes(g):
+                if isinstance(st, ast.Assign) and st.value is not None and _in_value_position(st.value, c):
+                    if any(isinstance(t, ast.Name) and t.id in returned_names for t in st.targets):
+                        ok = True
+        r.require(ok, g, g.loc(c), "%s starts %s but does not return its Deferred: the serialised operation would be "
+                  "reported finished (and the next one started) while that work is still running" % (
+                      short(g), call_name(c) or call_tail(c)))
+    if work:
+        def valued_return(n):
+            return is_return(n) and n.ast.value is not None and not (isinstance(n.ast.value, ast.Constant)
+                                                                      and n.ast.value.value is None)
+        r.count(len(cfg.nodes))
+        for (n, w) in find_path_avoiding(cfg, lambda n: n.kind == "exit", gate_node=valued_return):
+            # a path that started no work may end without a value (e.g. "no changes": nothing to wait for)
+            started = any(any(cc is c for cc in node_calls(x)) for (x, _l) in w.path for c in work if x.ast is not None)
+            if started:
+                r.violation(g, g.loc(), "%s can finish without returning the Deferred of the work it started "
+                            "(path: %s)" % (short(g), w.brief()), w)
+                break
+
+
+def _in_value_position(expr, call):
+    """`call`'s result is the value of `expr`: expr is the call, or a .addCallback/.addErrback/.addBoth chain on it."""
+    e = expr
+    while True:
+        if e is call:
+            return True
+        if isinstance(e, ast.Call) and isinstance(e.func, ast.Attribute) and e.func.attr in (
+                "addCallback", "addErrback", "addBoth", "addCallbacks"):
+            e = e.func.value
+            continue
+        if isinstance(e, ast.Await):
+            e = e.value
+            continue
+        return False
+
+
 def _serializer_shape(r, idx, fn):
     r.site(fn, None, "serialiser chain")
     ps = fn.params
@@ -511,16 +674,20 @@ def _memo_rule(r, idx, cg):
     # who may construct MutableFileNode / reach the single-cap factory
     allowed = {"allmydata." + k for k in MFN_FACTORIES}
     n_c = 0
-    for cs in cg.calls_named("MutableFileNode"):
-        n_c += 1
-        if cs.fn.qual in allowed:
-            continue
-        r.violation(cs.fn, cs.loc, "%s constructs a MutableFileNode outside the memoising NodeMaker path" % short(cs.fn))
+    for (f, nd) in _name_uses(idx, "MutableFileNode"):
+        if isinstance(nd, ast.Call):
+            n_c += 1
+            if f.qual not in allowed:
+                r.violation(f, f.loc(nd), "%s constructs a MutableFileNode outside the memoising NodeMaker path" % short(f))
+        elif not _is_type_test_arg(f, nd):
+            r.violation(f, f.loc(nd), "%s passes the MutableFileNode class around (a node could be built outside the "
+                        "memoising NodeMaker path)" % short(f))
     r.site("MutableFileNode constructions: %d" % n_c)
     if n_c < 2:
         raise AnchorVanished("MutableFileNode constructions not found")
-    for cs in cg.calls_named("filenode_class"):
-        r.violation(cs.fn, cs.loc, "%s constructs a file node through filenode_class" % short(cs.fn))
+    for (f, nd, _recv, kind) in _sweep(idx, "filenode_class"):
+        if kind == "call":
+            r.violation(f, f.loc(nd), "%s constructs a file node through filenode_class" % short(f))
     nm = idx.cls(NM)
     for tail, ok_callers in (("_create_mutable", {"_create_from_single_cap"}),
                              ("_create_from_single_cap", {"create_from_cap", "_create_from_single_cap"})):
